@@ -345,7 +345,7 @@ def scen_idle_after_unknown_event(env, name):
     changed sequential block failed at its sender with EdzedUnknownEvent (the error that does not stop the simulation):
     the catalogue network of C01 with such a destination behind input 0, judged by C01's closed-form oracle"""
     from harness import C01
-    C01.scen_catalog(env, name, nburst=1, first_target=0, picky_input=0)
+    C01.scen_catalog(env, name, nburst=1, first_target=0, picky_input=0, order_budget=6 if name == 'ladder' else 10 ** 9)
 
 
 def shards(tier):
